@@ -360,6 +360,12 @@ func DNSCaching(ttl time.Duration) func(*Attacker) {
 					return nil, err
 				}
 
+				if host == "" {
+					// No host means the local system (as in http://:80):
+					// nothing to look up, the dialer knows what to do.
+					return dial(ctx, network, addr)
+				}
+
 				ips, err := resolver.LookupHost(ctx, host)
 				if err != nil {
 					return nil, err
